@@ -177,7 +177,7 @@ def body_create(E, cfg):
 def units(prop):
     return [
         Unit(name="AlignmentComparer.compare", body=body_compare,
-             configs=lambda tier: [dict(n1=a, n2=b) for a in range(0, 3) for b in range(0, 3)] + ([dict(n1=3, n2=2)] if tier != "quick" else []),
+             configs=lambda tier: [dict(n1=a, n2=b) for a in range(0, 3) for b in range(0, 3)] + ([dict(n1=3, n2=2), dict(n1=3, n2=3)] if tier != "quick" else []),
              functions=["src.diagnostic.alignment_comparer:AlignmentComparer", "src.diagnostic.alignment_comparer:AlignmentComparison.create"],
              bounds="0..2 + 0..2 alignments (thorough 3 + 2) whose query and reference ids range over {1,2} (realised at the dict boundary); "
                     "identity and coverages returned by the injected row comparer are symbolic reals in [0,1]",
@@ -197,7 +197,7 @@ def units(prop):
              assumptions=["label numbers are enumerated by realisation forks (hashing in set / SequenceMatcher)"],
              outside=["longer pair lists"], shard_depth=lambda cfg, tier: 6),
         Unit(name="AlignmentComparison.create", body=body_create,
-             configs=lambda tier: [dict(n=k) for k in range(0, (4 if tier == "quick" else 5))],
+             configs=lambda tier: [dict(n=k) for k in range(0, (4 if tier == "quick" else 7))],
              functions=["src.diagnostic.alignment_comparer:AlignmentComparison.create"],
              bounds="0..3 (quick) / 0..4 (thorough) rows of the three kinds with symbolic measures in [0,1]",
              nontrivial_rule="at least two rows", stubs=["statistics.fmean replaced by sum/len"], outside=["more rows"]),
